@@ -70,6 +70,12 @@ def fam_txn(ctx):
             m = re.findall(r"Invariant (\w+) is violated", rr["out"])
             return s + " (lag)", (m[0] if m else "violated")
         ctx.cov["deviation_switches"].update(dict(ctx.par(lagged, ["BugDoneCommitEarly", "BugNoCommitWait", "BugCleanupEager"], workers=3)))
+        # beyond enumeration: random behaviours of a larger instance, all invariants in every state
+        big = (3, 2, 2, 3)
+        r = ctx.model_simulate("Txn", txn_cfg(*big, lag=True), num=40000, depth=120)
+        expect_ok(ctx, r, "Txn simulation %s" % (big,))
+        ctx.cov["model_bounds"]["Txn with asynchronous watermarks, simulated"] = dict(
+            bounds=big, behaviours=r["traces"], states_checked=r["checked"])
 
 
 CRASH_SWITCHES = ["BugDeleteInputsFirst", "BugNoSyncTable", "BugCreateInPlace", "BugWalSkipped", "BugTornTailFatal",
@@ -116,6 +122,11 @@ def fam_crash(ctx, torn=False):
         r = ctx.model_check("Crash", crash_cfg(**pt), timeout=3000)
         expect_ok(ctx, r, "Crash %s" % (pt,))
     ctx.cov.setdefault("model_bounds", {})["Crash"] = points
+    if not ctx.quick:
+        big = dict(keys=2, maxtxn=6, mem=2, queue=1, l0=2, crashes=2, closes=2, torn=torn)
+        r = ctx.model_simulate("Crash", crash_cfg(**big), num=15000, depth=150)
+        expect_ok(ctx, r, "Crash simulation %s" % (big,))
+        ctx.cov["model_bounds"]["Crash, simulated"] = dict(bounds=big, behaviours=r["traces"], states_checked=r["checked"])
     sws = [s for s, (t, _) in CRASH_SELFTEST.items() if t == torn or (torn and not ctx.quick)]
     if ctx.quick:
         sws = sws[:3]
@@ -316,6 +327,11 @@ def fam_store(ctx):
         r = ctx.model_check("Store", store_cfg(*b), timeout=3400)
         expect_ok(ctx, r, "Store %s" % (b,))
     ctx.cov.setdefault("model_bounds", {})["Store(keys,commits,memThreshold,queue,L0Target,readers)"] = bounds
+    if not ctx.quick:
+        big = (3, 7, 2, 2, 2, 2)
+        r = ctx.model_simulate("Store", store_cfg(*big), num=8000, depth=150)
+        expect_ok(ctx, r, "Store simulation %s" % (big,))
+        ctx.cov["model_bounds"]["Store, simulated"] = dict(bounds=big, behaviours=r["traces"], states_checked=r["checked"])
     by = {"C01": ["BugRemoveNewestImm", "BugImmOldestFirst", "BugDropTombstones"],
           "C05": ["BugDiscardAtNextTs", "BugMarkPassesReader", "BugRemoveNewestImm"],
           "C12": ["BugEnqueueBeforePush"]}
